@@ -58,13 +58,14 @@ def _err(cname, modname, e):
 
 def _enum_task(task):
     """phase 1: enumerate the paths of one function (solving only generator-level obligations)"""
-    modname, cname, timeout_ms = task
+    modname, cname, timeout_ms = task[:3]
+    forced = tuple(task[3]) if len(task) > 3 else ()
     try:
         from pyvc.prove import verify_function
         model = _get_model(modname)
         c = _find_contract(model, cname)
         rep = verify_function(model, c, timeout_ms, interference=getattr(c, "interference", None),
-                              phase="enumerate")
+                              phase="enumerate", forced=forced)
         d = rep.to_json()
         d.update(module=modname, note=c.note, prop=c.prop, vectors=getattr(rep, "vectors", []))
         return d
@@ -107,7 +108,15 @@ def run_proofs(modules, timeout_ms, jobs, only=None):
                 continue
             if getattr(c, "thorough_only", False) and timeout_ms < 60000:
                 continue
-            tasks.append((modname, c.name, timeout_ms))
+            k = getattr(c, "enum_split", 0)
+            if k and c.gen is None:
+                # path enumeration of a large function is itself split into 2**k slices by forcing the first k
+                # decisions (a path with fewer decisions belongs to the all-True slice)
+                import itertools
+                for bits in itertools.product((True, False), repeat=k):
+                    tasks.append((modname, c.name, timeout_ms, bits))
+            else:
+                tasks.append((modname, c.name, timeout_ms))
     if not tasks:
         return [], meta
     with mp.Pool(jobs) as pool:
@@ -470,12 +479,16 @@ def main():
         else:
             checker_errors.append(f"bounded layer crashed: {bout[-800:]}")
     if bres is not None:
+        reported_keys = set()
         for v in bres.get("violations", []):
             key = f"{v['suite']}::{v['class']}"
             kf = match_finding(findings, prop, "bounded", key, v["message"])
             if kf is not None:
                 known_lines.append((kf["id"], f"KNOWN-FINDING: property={prop} {kf['what']} [bounded {key}]"))
                 continue
+            if key in reported_keys:
+                continue       # one report (first unmatched witness) per class
+            reported_keys.add(key)
             rf = os.path.join(ROOT, "replays", f"{prop}_bounded_{_slug(key)}.json")
             json.dump({"kind": "bounded-case", "property": prop, "suite": v["suite"], "case": v["case"],
                        "message": v["message"]}, open(rf, "w"), indent=1, default=str)
